@@ -296,6 +296,9 @@ def check_setters(model, rep):
 
 
 def check(model, rep):
+    # hidden state Python keeps outside the objects (not modelled by the evaluator): reported before anything else is evaluated
+    from checks.solver_common import package_lints as _package_lints
+    _package_lints(model, rep, 'C10.hidden-state', ('/utils/relations.py', '/mechanical_objects/'))
     from checks.solver_common import absorb_cmp
     absorb_cmp(model, rep, 'C10.dep.cmp', ('Angle', 'Length'))
     rep.explain('C10: the three relation functions evaluated symbolically with master/slave of unknown class (class '
